@@ -23,7 +23,7 @@ fn gen_base(c: &mut Choice) -> Base {
         let (n, b) = small[c.idx(small.len())];
         (b.clone(), vec![b"memset".to_vec()], format!("sample {}", n))
     } else {
-        let o = RichOpts { override_chance: 30, corrupt_chance: 20, max_gap: 16, tables_early: false, allow_compressed: true, max_names: 5 };
+        let o = RichOpts { override_chance: 30, corrupt_chance: 20, max_gap: 16, tables_early: false, allow_compressed: true, max_names: 5, shrink_chance: 0 };
         let r = filegen::rich_file(c, &o);
         let note = format!("rich file with {} sections", r.built.shdrs.len());
         (r.built.bytes, r.dyn_names, note)
